@@ -798,6 +798,7 @@ def run(ctx):
         t0 = time.time()
         seen_situations = set()
         npruned = 0
+        insts_tables = []
         for inst in insts:
             tables = {}
             need = {a for a in ACTIONS if any(applies(a, q['f']) for q in inst.requests)}
@@ -831,6 +832,7 @@ def run(ctx):
             for vname, t in tables.items():
                 if any(not v[4] for v in t.values()) and not (vname == 'found' and 'repaired' in tables):
                     raise tlc.MachineryError('%s/%s: unexpected property verdicts in the printed table' % (inst.name, vname))
+            insts_tables.append(tables['found'])
             if inst is insts[0]:
                 attack(ctx, apps, inst, tables)
             replay_table(ctx, apps, inst, tables, 'spec->code')
@@ -839,6 +841,11 @@ def run(ctx):
             if need not in seen_situations:
                 raise tlc.MachineryError('the exhaustive instances never produce the situation %r (vacuous check)' % need)
         some = sorted(tables['found'].items())[len(tables['found']) // 2][1]
+        for k, v in sorted(insts_tables[0].items()):
+            flat = [m for row in v[2]['px'] for m in row]
+            if v[1]['authorized'] == 'partial' and 1 in flat and 4 in flat and 5 in flat and v[0]['f'] == 'tms':
+                some = v
+                break
         ctx.sample({'kind': 'case enumerated by TLC with the response of the spec', 'request': tla.jsonable(some[0]),
                     'callback': tla.jsonable(some[1]), 'response': tla.jsonable(some[2])})
         if npruned:
@@ -905,3 +912,4 @@ def replay(ctx, data):
         return rc
     finally:
         apps.close()
+        shutil.rmtree(ctx.workdir, ignore_errors=True)
